@@ -257,6 +257,7 @@ void
 #endif
 		}
 
+		SLU_MT_VERIF_EVENT(SLU_EV_SNODE_RELEASE, pnum, jcol, w, 0, 0);
 		/* Release the whole relaxed supernode */
 		for (jj = jcol; jj < jcol + w; ++jj) 
 		    pxgstrf_shared->spin_locks[jj] = 0;
@@ -359,9 +360,11 @@ void
 #endif
 			}
 
+		    SLU_MT_VERIF_EVENT(SLU_EV_COL_RELEASE, pnum, jj, 0, 0, 0);
                     /* release column "jj", so that the other processes
                        waiting for this column can proceed */
 		    pxgstrf_shared->spin_locks[jj] = 0;
+		    SLU_MT_VERIF_EVENT(SLU_EV_COL_RELEASED, pnum, jj, 0, 0, 0);
 		    
 		    /* copy the U-segments to ucol[*] */
 		    if ( (*info = pzgstrf_copy_to_ucol
@@ -369,6 +372,7 @@ void
 				     perm_r, &dense[k], pxgstrf_shared)) )
 		      return 0;
 
+		    SLU_MT_VERIF_EVENT(SLU_EV_UCOL_DONE, pnum, jj, 0, 0, 0);
 		    /* Prune columns [0:jj-1] using column jj */
 		    pxgstrf_pruneL(jj, perm_r, pivrow, nseg, segrep,
 				   &repfnz[k], xprune, ispruned, Glu);
@@ -390,7 +394,9 @@ void
 		
 	    } /* else regular panel ... */
 	    
+	    SLU_MT_VERIF_EVENT(SLU_EV_PANEL_DONE, pnum, jcol, 0, 0, 0);
 	    STATE( jcol ) = DONE; /* Release panel jcol. */
+	    SLU_MT_VERIF_EVENT(SLU_EV_PANEL_DONE2, pnum, jcol, 0, 0, 0);
 	    
 #ifdef PROFILE
 	    TOC(Gstat->panstat[jcol].fctime, t1);
@@ -412,6 +418,7 @@ void
     } /* while there are more panels */
 
     *info = singular;
+    SLU_MT_VERIF_EVENT(SLU_EV_THREAD_EXIT, pnum, singular, 0, 0, 0);
 
     /* Free work space and compress storage */
     pzgstrf_WorkFree(iwork, dwork, Glu);
